@@ -84,7 +84,16 @@ func init() {
 
 func genC16(seed uint64, tier string) Scenario {
 	g := NewGen(seed, 0xC16)
-	switch k := g.IntN(10); {
+	switch k := g.IntN(16); {
+	case k >= 10 && k < 13:
+		// cancelled and expiring operations, helper goroutines, buffer reuse
+		return wrapRace("stream", genC17(seed, tier))
+	case k == 13:
+		return wrapRace("e2e", genC03(seed, tier))
+	case k == 14:
+		return wrapRace("client", genC11(seed, tier))
+	case k == 15:
+		return wrapRace("reg", genC13(seed, tier))
 	case k < 5:
 		// life-cycle histories with registration attempts and GetListener calls
 		// concurrent with serving and with client connections
